@@ -81,7 +81,7 @@ Qed.
 Lemma dcentries_plain bs : Forall legal_block bs -> no_pe bs -> Forall MergeEntriesShape.plain (dcentries_of bs).
 Proof.
   intros Hl Hp. apply Forall_forall. intros e He. unfold MergeEntriesShape.plain.
-  destruct (dcents_In bs Hl Hp [] e eq_refl He) as [(w0 & -> & _)|[(body & _ & ->)|(pre & a1 & n & a2 & q & v & a3 & _ & ->)]]; auto.
+  destruct (dcents_In bs Hl Hp [] e eq_refl He) as [(w0 & -> & _)|[(body & _ & ->)|(pre & a1 & n & a2 & q & v & a3 & _ & ->)]]; auto 8.
 Qed.
 
 Lemma noadj_dflush w x l : is_white x = false -> noadj (x :: l) -> noadj (dflush w ++ x :: l).
